@@ -8,5 +8,6 @@ CONSTANTS
   Disturbs = TRUE
   DevRows = TRUE
   DevInd = FALSE
+  DevDocInd = FALSE
 INVARIANTS LengthInv StepOKModKnown
 CHECK_DEADLOCK FALSE
